@@ -231,6 +231,199 @@ func (c *child) decodeLogged(payload []byte) {
 	}
 }
 
+// ---- payloads AT the frame limit (quantifier audit: "... payloads up to the frame limit") ----
+//
+// Everything else in this check is small (< 2 KiB). Per cell: frames whose body is exactly the largest a 3-byte VarInt
+// length can announce (2^21-1 bytes) filled with 00 / FF / 01, the first seed followed by zeros, the first seed repeated,
+// and one frame one byte over the limit; for the index-graph packet additionally VALID command graphs scaled up
+// (4096 nodes, 65536 nodes, as many as fit): a star, a chain of children, a chain of redirects in ascending and in
+// descending node order. Large payloads are identified by a tag "L:<kind>:<n>" (they do not fit into a replay file
+// or an environment variable) and rebuilt from it.
+
+const frameLimit = 1<<21 - 1
+
+type bigCase struct {
+	kind string
+	n    int
+}
+
+func (b bigCase) tag() string { return fmt.Sprintf("L:%s:%d", b.kind, b.n) }
+
+func bigCases(cell pktgen.Cell) []bigCase {
+	out := []bigCase{{"zero", 0}, {"ff", 0}, {"one", 0}, {"seed+zero", 0}, {"seed-repeat", 0}, {"over-limit", 0}}
+	if pktgen.IsIndexGraphPacket(cell) {
+		sizes := []int{4096, 65536}
+		if pktgen.Thorough {
+			sizes = append(sizes, -1) // as many nodes as fit into a frame
+		}
+		for _, n := range sizes {
+			out = append(out, bigCase{"graph-star", n}, bigCase{"graph-child-chain", n}, bigCase{"graph-redirect-chain", n}, bigCase{"graph-redirect-chain-desc", n})
+		}
+	}
+	return out
+}
+
+// bigGraph encodes a valid command graph of n+1 nodes (node 0 is the root).
+func bigGraph(kind string, n int) []byte {
+	b := make([]byte, 0, 8*n+16)
+	vi := func(v int) { b = append(b, varint(v)...) }
+	vi(n + 1)
+	switch kind {
+	case "graph-star":
+		b = append(b, 0x00)
+		vi(n)
+		for i := 1; i <= n; i++ {
+			vi(i)
+		}
+		for i := 1; i <= n; i++ {
+			name := strconv.FormatInt(int64(i), 36)
+			b = append(b, 0x01, 0x00, byte(len(name)))
+			b = append(b, name...)
+		}
+	case "graph-child-chain":
+		b = append(b, 0x00, 0x01, 0x01)
+		for i := 1; i <= n; i++ {
+			b = append(b, 0x01)
+			if i < n {
+				b = append(b, 0x01)
+				vi(i + 1)
+			} else {
+				b = append(b, 0x00)
+			}
+			b = append(b, 0x01, 'a')
+		}
+	case "graph-redirect-chain", "graph-redirect-chain-desc":
+		// the root lists every node as its child (distinct names); node i redirects to its neighbour
+		b = append(b, 0x00)
+		vi(n)
+		for i := 1; i <= n; i++ {
+			vi(i)
+		}
+		for i := 1; i <= n; i++ {
+			to := i + 1
+			if kind == "graph-redirect-chain-desc" {
+				to = i - 1
+			}
+			name := strconv.FormatInt(int64(i), 36)
+			if to >= 1 && to <= n {
+				b = append(b, 0x09, 0x00)
+				vi(to)
+			} else {
+				b = append(b, 0x01, 0x00)
+			}
+			b = append(b, byte(len(name)))
+			b = append(b, name...)
+		}
+	}
+	vi(0) // root index
+	return b
+}
+
+var bigGraphCache = map[bigCase][]byte{}
+
+// bigPayload builds packet id + data for a big case.
+func bigPayload(bc bigCase, id []byte, seed []byte) []byte {
+	room := frameLimit - len(id)
+	if strings.HasPrefix(bc.kind, "graph-") {
+		data, ok := bigGraphCache[bc]
+		if !ok {
+			n := bc.n
+			if n < 0 { // as many nodes as fit (2 bytes of slack for a longer packet id)
+				lo, hi := 1, room
+				for lo < hi {
+					mid := (lo + hi + 1) / 2
+					if len(bigGraph(bc.kind, mid)) <= room-2 {
+						lo = mid
+					} else {
+						hi = mid - 1
+					}
+				}
+				n = lo
+			}
+			data = bigGraph(bc.kind, n)
+			bigGraphCache[bc] = data
+		}
+		return append(append(make([]byte, 0, len(id)+len(data)), id...), data...)
+	}
+	data := make([]byte, room)
+	switch bc.kind {
+	case "zero":
+	case "ff":
+		for i := range data {
+			data[i] = 0xFF
+		}
+	case "one":
+		for i := range data {
+			data[i] = 0x01
+		}
+	case "seed+zero":
+		copy(data, seed)
+	case "seed-repeat":
+		if len(seed) == 0 {
+			seed = []byte{0x7F}
+		}
+		for off := 0; off < len(data); off += len(seed) {
+			copy(data[off:], seed)
+		}
+	case "over-limit":
+		data = make([]byte, room+1)
+	}
+	return append(append(make([]byte, 0, len(id)+len(data)), id...), data...)
+}
+
+func (c *child) runBig(bc bigCase, payload []byte) {
+	c.caseNo++
+	if c.caseNo < c.from || (c.only > 0 && c.caseNo != c.only) {
+		return
+	}
+	if c.trace {
+		fmt.Fprintf(c.out, "CASE %d %s\n", c.caseNo, bc.tag())
+	} else {
+		fmt.Fprintln(c.out, "HB") // every big payload is progress of its own (stall = 20 s of CPU inside ONE of them)
+	}
+	c.out.Flush()
+	c.res.Evals++
+	c.res.Nontriv++
+	tn := pktgen.TypeName(c.cell.Type)
+	// through the real decoder only (a non-error panic then kills the child, which the parent attributes to this case)
+	c.frame = append(c.frame[:0], varint(len(payload))...)
+	c.frame = append(c.frame, payload...)
+	c.dec.SetReader(bytes.NewReader(c.frame))
+	before := exactAlloc()
+	ctx, err := c.dec.Decode()
+	d := exactAlloc() - before
+	switch {
+	case err == nil && ctx == nil:
+		c.violationZ(tn+"/neither-packet-nor-error", fmt.Sprintf("%s: Decoder.Decode returned (nil, nil) for payload %s", c.cell, bc.tag()), []byte(bc.tag()))
+	case err == nil:
+		c.res.Classes["frame-limit-payload/outcome:packet"]++
+	case ctx != nil:
+		c.res.Classes["frame-limit-payload/outcome:packet+left-bytes-error"]++
+	default:
+		c.res.Classes["frame-limit-payload/outcome:error"]++
+	}
+	// proportionality for large payloads: a decoded command node (builder, node, its maps) costs ~1.2 KB for ~7 wire
+	// bytes; 256 bytes per payload byte is the linear allowance, a length-prefixed pre-allocation exceeds it at once
+	bigBudget := uint64(256*len(payload) + fixedBudget)
+	if d > bigBudget {
+		c.violationZ(tn+"/alloc-blowup", fmt.Sprintf("%s: decoding the %d-byte payload %s allocated %d bytes (budget 256*len+4MiB = %d)", c.cell, len(payload), bc.tag(), d, bigBudget), []byte(bc.tag()))
+	}
+	c.res.Classes["frame-limit-payload:"+strings.SplitN(bc.kind, ":", 2)[0]]++
+}
+
+func (c *child) bigPayloads(id []byte, seeds []pktgen.Seed) {
+	var seed []byte
+	if len(seeds) > 0 {
+		seed = seeds[0].Data
+	}
+	for _, bc := range bigCases(c.cell) {
+		c.runBig(bc, bigPayload(bc, id, seed))
+	}
+	c.batch = c.batch[:0]
+	c.batchLg = c.batchLg[:0]
+	c.batchAt = c.allocNow()
+}
+
 // ---- compressed frames (gap review; seeded/C05-2) ----
 //
 // With compression enabled (SetCompressionThreshold(t), t >= 0 - the state of every connection after login) the frame
@@ -574,6 +767,8 @@ func (c *child) doCell(idx int, cell pktgen.Cell, firstOfRegistry bool) {
 		}
 		c.res.Classes["short-payload:2 bytes"] += 65536
 	}
+	// payloads at the frame limit
+	c.bigPayloads(id, seeds)
 	// once per (state, direction, protocol): every id 0..0x80 that is NOT registered, <=1-byte payloads
 	if firstOfRegistry {
 		reg := cell.State.ServerBound
@@ -597,6 +792,24 @@ func (c *child) doCell(idx int, cell pktgen.Cell, firstOfRegistry bool) {
 			n += 257
 		}
 		c.res.Classes["unregistered-id:<=1 byte"] += int64(n)
+		// quantifier audit ("any packet id"): ids beyond one VarInt byte, negative and extreme ids, malformed id VarInts
+		m := 0
+		for _, pid := range []int{0x81, 0xFF, 0x100, 0x3FFF, 0x4000, 1 << 21, 1<<31 - 1, -1, -(1 << 31)} {
+			if _, known := pr.PacketIDs[proto.PacketID(pid)]; known {
+				continue
+			}
+			idb := varint(pid)
+			for _, tail := range [][]byte{{}, {0x00}, {0xFF}, {0xFF, 0xFF, 0xFF, 0xFF, 0x07}} {
+				c.run(append(append(buf[:0], idb...), tail...))
+				m++
+			}
+		}
+		for _, bad := range [][]byte{{0x80, 0x80, 0x80, 0x80, 0x80, 0x80}, {0xFF}, {0x80}} {
+			c.run(append(buf[:0], bad...))
+			m++
+		}
+		c.endBatch()
+		c.res.Classes["unregistered-id:multi-byte/negative/malformed id"] += int64(m)
 		// compression layer: once per (state, direction) for the lowest and the highest protocol
 		if cell.Protocol == minProto || cell.Protocol == maxProto {
 			inners := [][]byte{append([]byte(nil), id...), append(append([]byte(nil), id...), make([]byte, 600)...)}
@@ -658,6 +871,22 @@ func runChild(r *vrt.R) {
 			fmt.Fprintf(c.out, "CELL -1\nCASE 1 %s\n", x.Payload)
 			c.out.Flush()
 			c.runZ(c.zDecoder(th), th, body, true)
+			b, _ := json.Marshal(c.res)
+			fmt.Fprintf(c.out, "RES %s\n", b)
+			c.out.Flush()
+			return
+		}
+		if strings.HasPrefix(x.Payload, "L:") { // frame-limit payload: "L:<kind>:<n>"
+			f := strings.Split(x.Payload, ":")
+			n, _ := strconv.Atoi(f[len(f)-1])
+			bc := bigCase{strings.Join(f[1:len(f)-1], ":"), n}
+			var seed []byte
+			if seeds := pktgen.NewGen(cell).Seeds(c.r.Thorough(), 400); len(seeds) > 0 {
+				seed = seeds[0].Data
+			}
+			fmt.Fprintf(c.out, "CELL -1\n")
+			c.trace = true
+			c.runBig(bc, bigPayload(bc, varint(int(cell.ID)), seed))
 			b, _ := json.Marshal(c.res)
 			fmt.Fprintf(c.out, "RES %s\n", b)
 			c.out.Flush()
